@@ -10,6 +10,7 @@ package internal
 // hence no harness-made happens-before edges).
 
 import (
+	"os/user"
 	"io"
 
 	"encoding/json"
@@ -97,6 +98,17 @@ func TestVX_raceChild(t *testing.T) {
 		fileRpmF := filepath.Join(job.Dir, "sys", "filefanF", "rpm")
 		vxWriteInt(filePwmF, 90)
 		vxWriteInt(fileRpmF, 1300)
+		// fanF's paths are written home-relative ("~/../..<absolute path>"), a documented form of the file back-end: every
+		// access resolves "~" first
+		if u, err := user.Current(); err == nil {
+			up := ""
+			for _, part := range strings.Split(strings.Trim(u.HomeDir, "/"), "/") {
+				if part != "" {
+					up += "/.."
+				}
+			}
+			filePwmF, fileRpmF = "~"+up+filePwmF, "~"+up+fileRpmF
+		}
 		// two more file fans; in scenario "nopwm" their PWM files are unreadable at start (no PWM read-back -> default map)
 		// and nothing is stored for them
 		var extraFans string
